@@ -7,6 +7,7 @@
     check call does not depend on a collection filled while iterating over the other check calls;
     CWE243 warning decision as a truth table over its three atoms
  R4 totality: unwrap/expect/panic sites whose operand depends on the analysed program
+How: the CWE243 table is computed by specialisation over the 16 assignments of its four atoms (is a warning reachable?).
 """
 import itertools
 
